@@ -315,8 +315,18 @@ def build_objects(case, delay_ms=0.0, extra=None):
     import pyx
 
     det = pyx.make_detector("CCD", 3, 4)
+    apply_det_overrides(det, case)
     pipe = pyx.make_pipeline(pipeline_groups(case, delay_ms, extra))
     return det, pipe
+
+
+def apply_det_overrides(det, case):
+    """the configured detector settings of this configuration (`det_overrides`: key → value)"""
+    import operator
+
+    for k, v in (case.get("det_overrides") or {}).items():
+        parts = k.split(".")[1:]
+        setattr(operator.attrgetter(".".join(parts[:-1]))(det), parts[-1], v)
 
 
 def write_table(case, folder):
@@ -357,6 +367,8 @@ def default_of(case, key, _cache={}):
             if m["group"] == g and m["name"] == n:
                 return m["args"][a]
         raise KeyError(key)
+    if key in (case.get("det_overrides") or {}):
+        return case["det_overrides"][key]
     if "det" not in _cache:
         import pyx
 
@@ -533,6 +545,69 @@ def run_impl(case, scheduler="synchronous", num_workers=None, delay_ms=0.0, with
         shutil.rmtree(tmp, ignore_errors=True)
 
 
+def reconfigure(case, rng):
+    """the same parameter space over ANOTHER configuration: other configured values for every model argument and
+    for the swept (and some more) detector fields; the Observation (parameters, mode, table) is unchanged"""
+    c2 = json.loads(json.dumps(case))
+    for m in c2["models"]:
+        for a, v in list(m["args"].items()):
+            if isinstance(v, list):
+                m["args"][a] = [x + rng.randrange(1, 9) for x in v]
+            elif isinstance(v, str):
+                m["args"][a] = v + rng.choice(["x", "y", "z"])
+            elif isinstance(v, (int, float)):
+                m["args"][a] = v + rng.choice([1, 2, 0.5, 10])
+    ov = dict(c2.get("det_overrides") or {})
+    for k, pool in FIELD_POOL.items():
+        if ("detector." + k[len("detector."):]) and (k[len("detector."):] in c2["fields"] or rng.random() < 0.3):
+            ov[k] = rng.choice([v for v in pool if v != default_of(case, k)])
+    c2["det_overrides"] = ov
+    c2["fields"] = sorted(set(c2["fields"]) | {k[len("detector."):] for k in ov})
+    return c2
+
+
+def run_history(cases, parallel, in_place=False):
+    """ONE Observation object (built from cases[0]) used for len(cases) successive run_mode calls, call k on the
+    configuration cases[k] (fresh detector / pipeline objects, or the first call's objects edited in place).
+    All cases share parameters / mode / table / recorded fields.  Returns one result per call."""
+    import dask
+    import obsprobes
+    import pyxel
+
+    tmp = tempfile.mkdtemp(prefix="verif-c05h-")
+    cwd = os.getcwd()
+    out = []
+    try:
+        os.chdir(tmp)
+        obs = build_observation(cases[0], tmp, with_dask=parallel)
+        det = pipe = None
+        for k, case in enumerate(cases):
+            obsprobes.reset()
+            try:
+                if det is None or not in_place:
+                    det, pipe = build_objects(case)
+                else:
+                    apply_det_overrides(det, case)
+                    for i, m in enumerate(case["models"]):
+                        mf = getattr(getattr(pipe, m["group"]), m["name"])
+                        for a, v in m["args"].items():
+                            mf.arguments[a] = json.loads(json.dumps(v))
+                with dask.config.set(scheduler="synchronous"):
+                    dt = pyxel.run_mode(mode=obs, detector=det, pipeline=pipe,
+                                        with_inherited_coords=bool(case.get("inherit")) or parallel)
+                    res = extract_entries(find_bucket(dt), nslots(case))
+                res["exec"] = exec_log(case)
+            except common.InfraError:
+                raise
+            except Exception as e:  # noqa: BLE001
+                res = {"error": common.err_kind(e), "msg": f"{type(e).__name__}: {e}"[:300]}
+            out.append(res)
+        return out
+    finally:
+        os.chdir(cwd)
+        shutil.rmtree(tmp, ignore_errors=True)
+
+
 # ------------------------------------------------------------------ Lean side
 def lean_request(case):
     if case["mode"] == "custom":
@@ -680,12 +755,16 @@ def stable_key(why_key: str) -> str:
     return why_key
 
 
-def check_case(ck, case, ans, stream, parallel, impl=None):
+def check_case(ck, case, ans, stream, parallel, impl=None, history=None):
     impl = impl if impl is not None else run_impl(case, with_dask=parallel)
     model = model_entries(case, ans, parallel)
     why = property_predicate(case, impl, parallel)
     if why is not None:
-        ck.violation("C05:" + stable_key(why[0]), why[1], {"case": case, "parallel": parallel, "impl": impl})
+        rp = {"case": case, "parallel": parallel, "impl": impl}
+        if history:
+            rp["history"] = history  # {"cases": [...calls up to this one...], "in_place": bool}
+        ck.violation("C05:" + stable_key(why[0]) + (":reused-observation" if history and len(history["cases"]) > 1 else ""),
+                     why[1] + (f" (call #{len(history['cases'])} with the same Observation object)" if history else ""), rp)
     if "error" in impl or "error" in model:
         if ("error" in impl) != ("error" in model):
             ck.disagreement(stream, case, impl.get("error", "ok"), model.get("error", "ok"))
@@ -743,13 +822,48 @@ def body(ck: common.Check):
         ck.count("params_vector", sum(1 for p in case["params"] if p.get("multi") or p.get("width")))
         ck.count("params_numpy_expr", sum(1 for p in case["params"] if isinstance(p.get("decl"), str) and "numpy" in p["decl"]))
         ck.count("params_detector_field", sum(1 for p in case["params"] if p["key"].startswith("detector.")))
+    # history stream: ONE Observation object, several run_mode calls, the configuration changed in between; every
+    # call is judged with the configuration given to THAT call (the model's `defaults` are the current call's)
+    hist = []
+    for mode in ("sequential", "sequential", "product", "custom"):
+        for wd in (False, True):
+            hist.append((mode, wd))
+    for _ in range(0 if quick else 60):
+        hist.append((rng.choice(["sequential", "sequential", "product", "custom"]), rng.random() < 0.5))
+    hcases = []
+    for mode, wd in hist:
+        c0 = gen_case(rng, mode=mode, with_dask=wd, flavour=rng.choice(["plain", "vectors", "fine"]), max_runs=8)
+        if mode == "sequential":  # at least two enabled parameters: the others' configured values matter
+            for _ in range(20):
+                if sum(p["enabled"] for p in c0["params"]) >= 2:
+                    break
+                c0 = gen_case(rng, mode=mode, with_dask=wd, flavour="plain", max_runs=8)
+        c0["fields"] = sorted(set(c0["fields"]) | {"characteristics.quantum_efficiency"})
+        seq = [c0]
+        for _ in range(rng.choice([1, 2])):
+            seq.append(reconfigure(seq[-1], rng))
+        for c in seq:
+            c["fields"] = seq[-1]["fields"]
+        hcases.append((seq, wd, rng.random() < 0.5))
+    flat = [c for seq, _, _ in hcases for c in seq]
+    hans = LeanDriver("C05").batch([lean_request(c) for c in flat])
+    pos = 0
+    for seq, wd, in_place in hcases:
+        results = run_history(seq, wd, in_place)
+        for k, (c, res) in enumerate(zip(seq, results)):
+            ans = hans[pos]
+            pos += 1
+            check_case(ck, c, ans, f"history-call{k}", wd, impl=res, history={"cases": seq[:k + 1], "in_place": in_place})
+            ck.case({"history": k, "case": c, "in_place": in_place}, nontrivial=k >= 1, stream="history")
+            ck.count(f"history:{c['mode']}:{'dask' if wd else 'seq'}:call{k}")
     ck.rule = ("1-4 parameters (keys pairwise different) over stamp-probe arguments and detector fields; scalar int/float/"
                "mixed/string lists, numpy expressions (integer / dyadic with independently computed expectations; tiny magnitudes, long "
                "mantissas and fractional steps evaluated with numpy in the harness, compared bit for bit), 1-D and 2-D vector values, "
                "enabled/disabled mix; product / sequential / custom (npy and txt tables, extra unused columns); sequential "
                "path and dask path (synchronous scheduler); collision flavours: two models sharing an argument name, one "
                "model name in two groups, detector field vs model argument; non-trivial = at least two runs; distinct by "
-               "canonical JSON")
+               "canonical JSON; history stream: one Observation object used for 2-3 successive run_mode calls on reconfigured "
+               "detectors / pipelines (fresh objects or edited in place), each call judged with its own configuration")
     ck.assumptions = [
         "value lists without repeated values (DESIGN 6b); vector values of one parameter have equal lengths",
         "numbers are compared by value (1 and 1.0 are the same parameter value; pandas/xarray change the numeric type)",
@@ -769,7 +883,8 @@ def replay(path):
         print("replay names a broken obligation/correspondence, no concrete input:", rp["what"])
         return 1
     parallel = rp["replay"].get("parallel", case["with_dask"])
-    impl = run_impl(case, with_dask=parallel)
+    hist = rp["replay"].get("history")
+    impl = run_history(hist["cases"], parallel, hist["in_place"])[-1] if hist else run_impl(case, with_dask=parallel)
     why = property_predicate(case, impl, parallel)
     print("impl:", json.dumps(impl, default=str)[:1500])
     print("REPRODUCED: " + why[1] if why else "not reproduced (property holds on this input)")
